@@ -523,6 +523,93 @@ theorem lrepr_batch (s : LState I K) (L : List Route) (ids : List String) (h : L
     rw [List.filter_eq_nil_iff] at this
     simpa using this x hx
 
+/-! ### cache -/
+
+/-- `b'` is `b` after some `cache` calls: it represents whatever `b` represents -/
+def CacheRel (b b' : I.M) : Prop := ∀ L, IL.Repr b L → IL.Repr b' L
+
+/-- bucket lists with the same keys whose buckets are related by `CacheRel` -/
+def CacheRelL : List (K × I.M) → List (K × I.M) → Prop
+  | [], [] => True
+  | e :: m, e' :: m' => (e'.1 = e.1 ∧ CacheRel IL e.2 e'.2) ∧ CacheRelL m m'
+  | _, _ => False
+
+theorem cacheAll_spec (level : Nat) : ∀ (m : List (K × I.M)) (limit : Nat),
+    CacheRelL IL m (cacheAll I level m limit).1 ∧ (cacheAll I level m limit).2 ≤ limit := by
+  intro m
+  induction m with
+  | nil => intro limit; exact ⟨trivial, Nat.le_refl _⟩
+  | cons e m ih =>
+    obtain ⟨k, b⟩ := e
+    intro limit
+    have h1 := ih (I.cache limit level b).2
+    have h2 := IL.cache_le b limit level
+    refine ⟨⟨⟨rfl, fun L hL => IL.repr_cache b L limit level hL⟩, h1.1⟩, ?_⟩
+    exact Nat.le_trans h1.2 h2
+
+theorem cacheRelL_lookup : ∀ {m m' : List (K × I.M)}, CacheRelL IL m m' → ∀ (k : K),
+    (alookup k m' = none ↔ alookup k m = none) ∧
+    (∀ b', alookup k m' = some b' → ∃ b, alookup k m = some b ∧ CacheRel IL b b')
+  | [], [], _, k => by simp
+  | [], _ :: _, h, _ => h.elim
+  | _ :: _, [], h, _ => h.elim
+  | (ka, va) :: l, (ka', va') :: l', h, k => by
+    obtain ⟨⟨hk, hr⟩, hl⟩ := h
+    simp only at hk hr
+    subst hk
+    have ih := cacheRelL_lookup hl k
+    simp only [alookup_cons]
+    by_cases e : ka' = k
+    · simp only [e, if_true]
+      refine ⟨by simp, ?_⟩
+      intro b' hb'
+      simp only [Option.some.injEq] at hb'
+      subst hb'
+      exact ⟨va, rfl, hr⟩
+    · simp only [e, if_false]
+      exact ih
+
+theorem cacheRelL_keys : ∀ {m m' : List (K × I.M)}, CacheRelL IL m m' → akeys m' = akeys m
+  | [], [], _ => rfl
+  | [], _ :: _, h => h.elim
+  | _ :: _, [], h => h.elim
+  | e :: l, e' :: l', h => by
+    have ih := cacheRelL_keys h.2
+    simp only [akeys, List.map_cons] at ih ⊢
+    rw [h.1.1, ih]
+
+theorem cacheRelL_append : ∀ {a a' b b' : List (K × I.M)}, CacheRelL IL a a' → CacheRelL IL b b' →
+    CacheRelL IL (a ++ b) (a' ++ b')
+  | [], [], _, _, _, h2 => h2
+  | [], _ :: _, _, _, h, _ => h.elim
+  | _ :: _, [], _, _, h, _ => h.elim
+  | _ :: _, _ :: _, _, _, h1, h2 => ⟨h1.1, cacheRelL_append h1.2 h2⟩
+
+/-- A state whose buckets are the cached versions of another state's buckets represents the same
+routes. -/
+theorem lrepr_of_cacheRel (s s' : LState I K) (L : List Route) (h : LRepr IL keysOf s L)
+    (hcount : s'.count = s.count) (hany : CacheRel IL s.any s'.any) (hmap : CacheRelL IL s.map s'.map) :
+    LRepr IL keysOf s' L where
+  len := by rw [hcount]; exact h.len
+  any := hany _ h.any
+  nodup := by rw [cacheRelL_keys IL hmap]; exact h.nodup
+  some := by
+    intro k b' hk
+    obtain ⟨b, hb, hr⟩ := (cacheRelL_lookup IL hmap k).2 b' hk
+    exact hr _ (h.some k b hb)
+  none := by
+    intro k hk
+    exact h.none k ((cacheRelL_lookup IL hmap k).1.1 hk)
+
+theorem lrepr_cache (s : LState I K) (L : List Route) (limit level : Nat) (h : LRepr IL keysOf s L) :
+    LRepr IL keysOf (lCache I limit level s).1 L :=
+  lrepr_of_cacheRel IL keysOf s _ L h rfl (fun L' hL' => IL.repr_cache _ L' limit level hL')
+    (cacheAll_spec IL level s.map _).1
+
+include IL in
+theorem lcache_le (s : LState I K) (limit level : Nat) : (lCache I limit level s).2 ≤ limit :=
+  Nat.le_trans (cacheAll_spec IL level s.map _).2 (IL.cache_le s.any limit level)
+
 /-! ### matching: the bucket union -/
 
 variable (accepts : K → Req → Bool)
